@@ -423,7 +423,7 @@ def _effectful_statements(ctx: Ctx, save: FuncInfo) -> list[ast.stmt]:
     return out
 
 
-@rule('C12.ROLLBACK-COVER', ['C12', 'C13', 'C14'], min_instances=3)
+@rule('C12.ROLLBACK-COVER', ['C12', 'C13', 'C14', 'C08'], min_instances=3)
 def rollback_cover(ctx: Ctx):
     """Every storage write effect of a save lies inside a try whose BaseException handler unconditionally
     deletes the same key and re-raises."""
